@@ -327,7 +327,11 @@ func (i Interval) Expanded(margin float64) Interval {
 		}
 		// Check whether this interval will be full after expansion, allowing
 		// for a rounding error when computing each endpoint.
-		if i.Length()+2*margin+2*dblEpsilon >= 2*math.Pi {
+		// The slack must exceed the rounding error of the sum, which is a few
+		// ulps of 2*Pi (one ulp of 2*Pi is 4*dblEpsilon): if the check misses
+		// an interval that grows to the full circle, the two wrapped endpoints
+		// below coincide and the result loses every point.
+		if i.Length()+2*margin+16*dblEpsilon >= 2*math.Pi {
 			return FullInterval()
 		}
 	} else {
